@@ -1050,6 +1050,28 @@ func (r *rewriter) expr(e ast.Expr, mode int) ast.Expr {
 				return r.wrapPtr(x, mode, cls, x, name)
 			case types.MethodVal:
 				if isStructVal(baseT) {
+					// method call on a struct VALUE that lives in a field or a written package variable
+					// (e.g. a shared strings.Builder / bytes.Buffer scratch): the callee is not instrumented,
+					// so record the call itself as a read (value receiver) or write (pointer receiver) of it
+					if !isSyncType(baseT) && r.addressable(orig) && r.sharedBase(orig) {
+						ptrRecv := false
+						if fn, ok := sel.Obj().(*types.Func); ok {
+							if sig, ok := fn.Type().(*types.Signature); ok && sig.Recv() != nil {
+								_, ptrRecv = sig.Recv().Type().(*types.Pointer)
+							}
+						}
+						name := r.describe(orig)
+						cls, fnName := "FIELD_R", "R"
+						if ptrRecv {
+							cls, fnName = "FIELD_W", "W"
+						}
+						if _, isSel := unparen(orig).(*ast.SelectorExpr); !isSel || r.info().Selections[unparen(orig).(*ast.SelectorExpr)] == nil {
+							cls = "GLOBAL"
+						}
+						inner := r.expr(orig, mAddr)
+						x.X = &ast.CallExpr{Fun: r.simrtSel(fnName), Args: []ast.Expr{&ast.UnaryExpr{Op: token.AND, X: inner}, r.newSite(cls, orig, name)}}
+						return x
+					}
 					x.X = r.expr(orig, mAddr)
 				} else {
 					x.X = r.expr(orig, mRd)
